@@ -161,7 +161,8 @@ fn chunk_limit(policy: Option<&ChunkPolicy>, pos: u64, nth: u32) -> u64 {
 
 impl SimWorld {
     pub fn new(sc: &Scenario, report_fd: i32) -> SimWorld {
-        let aliases: HashMap<String, String> = sc.hardlinks.iter().cloned().collect();
+        let aliases: HashMap<String, String> =
+            if sc.links_copy_up { HashMap::new() } else { sc.hardlinks.iter().cloned().collect() };
         let mut files = BTreeMap::new();
         for f in &sc.files {
             if f.exists && !aliases.contains_key(&f.path) {
@@ -815,6 +816,10 @@ impl World for WorldRef {
             }
             if (flags.truncate || flags.create || flags.create_new) && !wants_write {
                 return Err(libc::EINVAL);
+            }
+            // (a second name may sit on a read-only mount: its own write permission counts)
+            if wants_write && g.aliases.contains_key(&p) && g.sc.files.iter().any(|f| f.path == p && !f.writable) {
+                return Err(libc::EACCES);
             }
             let p = g.aliases.get(&p).cloned().unwrap_or_else(|| p.clone());
             match g.files.get(&p) {
